@@ -243,7 +243,7 @@ impl Space for SentSpace {
 
 pub fn main(tier: Tier, replay: Option<String>) -> i32 {
     let mut rep = Report::new("C16", "model_checking", tier);
-    rep.rule = "states = all texts within the bound over the sentence alphabet (kana, terminators 。！. ．, brackets ( ) 「 」, quoting particle と, digit, letter, space, <br>, ・, comma, the dictionary words モー娘。 and な。な, an astral character); each is split with window limits {1,2,3,5,4096} with and without the dictionary-based non-break checker (the lexicon lists 。 itself as a one-character entry); oracle: partition / slice equality / termination, every non-last sentence ends with terminator+ tail*, bracket level 0 at each break, no break inside or at the end of a multi-character dictionary word, and the converse on the class where every veto is plainly false; non-trivial = more than one sentence".into();
+    rep.rule = "states = all texts within the bound over the sentence alphabet (kana, terminators 。！. ． ! ?, brackets ( ) 「 」, a backslash, quoting particle と, digit, letter, space, <br>, ・, comma, the dictionary words モー娘。, な。な, a! and !?, an astral character); each is split with window limits {1,2,3,5,4096} with and without the dictionary-based non-break checker (the lexicon lists 。 itself as a one-character entry); oracle: partition / slice equality / termination, every non-last sentence ends with terminator+ tail*, bracket level 0 at each break, no break inside or at the end of a multi-character dictionary word, and the converse on the class where every veto is plainly false; non-trivial = more than one sentence".into();
     rep.assumptions = vec![
         "the converse is asserted only for 。！？ not followed by と っ で や の / terminator / comma / closer / ・ / <, at bracket level 0, inside the window, not inside a multi-character dictionary word".into(),
         "bracket level is the saturating count restarted per sentence, evaluated at the break position".into(),
@@ -251,8 +251,11 @@ pub fn main(tier: Tier, replay: Option<String>) -> i32 {
     let mut spec = spec_full("W-sent", false);
     spec.system.push(Row::new("な。な", 8, 8, 2914, P_NOUN));
     spec.system.push(Row::new("！？", 5, 5, 1000, P_SYM));
+    // short ASCII words that end with a terminator (two and three bytes)
+    spec.system.push(Row::new("a!", 5, 5, 1000, P_SYM));
+    spec.system.push(Row::new("!?", 5, 5, 1000, P_SYM));
     let world = Arc::new(World::build(spec).expect("W-sent"));
-    let alpha = syms(&["あ", "。", "と"], &["！", ".", "．", "(", ")", "「", "」", "1", "a", " ", "<br>", "・", ",", "モー娘。", "な。な", "𠮷", "な", "？"]);
+    let alpha = syms(&["あ", "。", "と"], &["！", ".", "．", "(", ")", "「", "」", "1", "a", " ", "<br>", "・", ",", "モー娘。", "な。な", "𠮷", "な", "？", "!", "?", "\\"]);
     let bounds = tier.pick(TreeBounds { full_len: 3, ext_len: 6, max_special: 2 }, TreeBounds { full_len: 4, ext_len: 7, max_special: 2 });
     let b = json!({"tree": bounds.to_json(), "limits": [1, 2, 3, 5, 4096], "checker": ["none", "dictionary"]});
     let mut jobs = vec![job(SentSpace { world, alpha: alpha.clone(), bounds: bounds.clone(), limits: vec![1, 2, 3, 5, 4096] }, Strategy::Dfs, Some(tier.pick(50, 3000)), b.clone())];
